@@ -3,31 +3,13 @@ import Eliot.Proofs.ParseParser
 /-!
 # `Parser` over the flat tasks refines `Parser` over the tries
 
-`FParser.add` routes by uuid, adds, hands back and discards exactly like `PM.Parser.add`, on `FTask`s.
+`FParser.add` (`Model/ParseFlat.lean`, the function the driver runs against the real `Parser`) routes by uuid, adds, hands back and
+discards exactly like `PM.Parser.add`, on `FTask`s.
 `PInv`: the two parsers hold the same uuids in the same order, task by task related by `Inv`.
 `FParser.add_refines` / `FParser.feed_refines`: preserved by every addition inside the domain;
 `pdom_of_spec`: messages of a well-formed specification are always inside the domain.
 -/
 namespace PM
-
-abbrev FParser := List (String × FTask)
-
-def FParser.add (p : FParser) (m : PMsg) : Except Err (List (String × FTask) × FParser) := do
-  let cur := (p.lookup m.uuid).getD {}
-  let t ← cur.add m
-  let rest := p.filter (fun e => e.1 != m.uuid)
-  if t.isComplete then pure ([(m.uuid, t)], rest) else pure ([], (m.uuid, t) :: rest)
-
-def FParser.feed : FParser → List PMsg → Except Err (List (String × FTask) × FParser)
-  | p, [] => pure ([], p)
-  | p, m :: ms => do
-    let (done, p') ← p.add m
-    let (done', p'') ← FParser.feed p' ms
-    pure (done ++ done', p'')
-
-def fparseStream (ms : List PMsg) : Except Err (List (String × FTask)) := do
-  let (done, p) ← FParser.feed [] ms
-  pure (done ++ p)
 
 inductive PInv : List (String × FTask) → List (String × Task) → Prop
   | nil : PInv [] []
